@@ -5,6 +5,7 @@ CONSTANTS
  DevSlashOnly = FALSE
  DevDotOnly = FALSE
  DevAllowColon = FALSE
+ DevDefaultPartsSkipsNameCheck = FALSE
 INIT TInit
 NEXT TNext
 POSTCONDITION Reached
